@@ -281,6 +281,14 @@ def run(F, rep, tier):
     else:
         regn = arm_region(F, eb, me, chain_arm)
         cs = eb.calls_in(regn)
+        if not any(c.target == 'eval::ChainEvaluator::new' for c in cs):
+            # the general branch may have been split off into a helper function called from the arm: analyse that body
+            for c in cs:
+                if F.has_fn(c.target) and c.target != evaluate and any(c2.target == 'eval::ChainEvaluator::new' for c2 in F.body(c.target).calls):
+                    eb = F.body(c.target)
+                    regn = set(eb.reach)
+                    cs = eb.calls
+                    break
         news = [c for c in cs if c.target == 'eval::ChainEvaluator::new']
         gives = [c for c in cs if c.target == 'eval::ChainEvaluator::give']
         fins = [c for c in cs if c.target == 'eval::ChainEvaluator::finish']
